@@ -70,46 +70,54 @@ Proof. destruct s; reflexivity. Qed.
 (* ---- the bracket ------------------------------------------------------------------------------------ *)
 (* If the body, started in any state with an absolute cwd, hands that state back, then so does the
    bracket — for a result Ok or Err alike — and the body ran in the directory of the path. *)
-Lemma bracket_none A (body : st -> st * res A) (r_of : str -> res A) s :
-  (forall s', is_abs (cwd s') = true -> body s' = (s', r_of (cwd s'))) ->
-  is_abs (cwd s) = true ->
-  bracket None body s = (s, r_of (cwd s)).
+Lemma kresolve_abs links p : is_abs (kresolve links p) = true.
+Proof. reflexivity. Qed.
+
+Lemma bracket_none fxs links dir_ok A (body : st -> st * res A) (r : res A) s :
+  body s = (s, r) ->
+  bracket fxs links dir_ok None body s = (s, r).
 Proof.
-  intros Hb Hs. unfold bracket.
-  destruct (cpd s) eqn:E; simpl.
-  - rewrite <- E, st_eta, (Hb s Hs). rewrite st_eta. reflexivity.
-  - rewrite <- E, st_eta, (Hb s Hs). rewrite st_eta. reflexivity.
+  intros Hb. unfold bracket. cbn [cwd cpd]. rewrite st_eta, Hb. rewrite st_eta. reflexivity.
 Qed.
 
-Lemma bracket_some A (body : st -> st * res A) (r_of : str -> res A) a s :
-  (forall s', is_abs (cwd s') = true -> body s' = (s', r_of (cwd s'))) ->
+Lemma bracket_some fxs links dir_ok A (body : st -> st * res A) (r : res A) a s :
   is_abs a = true ->
-  bracket (Some a) body s = (s, r_of (normpath (dirname a))).
+  dir_ok (chdir_dir fxs links a) = true ->
+  (forall s', cwd s' = chdir_dir fxs links a -> body s' = (s', r)) ->
+  bracket fxs links dir_ok (Some a) body s = (s, r).
 Proof.
-  intros Hb Ha. unfold bracket.
-  destruct (dirname_abs a Ha) as [Hd Hn]. rewrite Hn. simpl.
-  rewrite Hb by (simpl; apply normpath_abs; exact Hd). simpl.
-  rewrite st_eta. reflexivity.
+  intros Ha Hd Hb. unfold bracket.
+  destruct (dirname_abs a Ha) as [_ Hn]. rewrite Hn. cbn [cwd cpd]. rewrite Hd.
+  rewrite Hb by reflexivity. rewrite st_eta. reflexivity.
 Qed.
 
 (* ---- step 1: the brackets can be eliminated ------------------------------------------------------------
    What the code computes is a pure function of the base directory (pure_node, the code's behaviour with
-   the state threaded away), and the state comes back untouched. *)
+   the state threaded away), and the state comes back untouched — provided every directory it enters can be
+   entered (enter_guard). *)
 Section Main.
   Variable fxs : fixes.
   Variable files : list str.
+  Variable links : list (str * str).
+  Variable dir_ok : str -> bool.
+
+  (* the directory the code enters for a file spelled g in base *)
+  Definition mdir (base g : str) : str := chdir_dir fxs links (join base g).
+
+  Lemma mdir_cdir base g : mdir base g = cdir links (fx_rp fxs) base g.
+  Proof. reflexivity. Qed.
 
   Fixpoint pure_node (base : str) (n : node) : res (list item) :=
     match n with
     | NPath id given =>
-        if present files base given then Ok [(id, given, base, join base given)] else Err
+        if present files links base given then Ok [(id, given, base, join base given)] else Err
     | NLoad given body =>
-        if present files base given then spec_list pure_node (dir_of base given) body else Err
+        if present files links base given then spec_list pure_node (mdir base given) body else Err
     | NListFile yaml_ok given body =>
-        if present files base given then
-          let d := dir_of base given in
+        if present files links base given then
+          let d := mdir base given in
           if yaml_ok && negb (fx_lf fxs) then
-            (if present files d given then spec_list pure_node (dir_of d given) body else Err)
+            (if present files links d given then spec_list pure_node (mdir d given) body else Err)
           else spec_list pure_node d body
         else Err
     | NInline body => spec_list pure_node base body
@@ -117,87 +125,106 @@ Section Main.
     end.
 
   Definition pure_top (cwd0 top : str) (body : list node) : res (list item) :=
-    if present files cwd0 top then spec_list pure_node (dir_of cwd0 top) body else Err.
+    if present files links cwd0 top then spec_list pure_node (mdir cwd0 top) body else Err.
+
+  Notation EG := (enter_guard files links (fx_lf fxs) (fx_rp fxs) dir_ok).
+  Notation RUN := (run_node fxs files links dir_ok).
 
   Definition node_ok (n : node) : Prop :=
-    forall s, is_abs (cwd s) = true -> run_node fxs files n s = (s, pure_node (cwd s) n).
+    forall s, is_abs (cwd s) = true -> EG (cwd s) n = true -> RUN n s = (s, pure_node (cwd s) n).
 
   Lemma open_fr_spec s g :
-    open_fr files s g = if present files (cwd s) g then Ok (cwd s, join (cwd s) g) else Err.
+    open_fr files links s g = if present files links (cwd s) g then Ok (cwd s, join (cwd s) g) else Err.
   Proof. reflexivity. Qed.
 
   Lemma seq_ok body : Forall node_ok body ->
-    forall s, is_abs (cwd s) = true ->
-      seq_nodes (run_node fxs files) body s = (s, spec_list pure_node (cwd s) body).
+    forall s, is_abs (cwd s) = true -> forallb (EG (cwd s)) body = true ->
+      seq_nodes RUN body s = (s, spec_list pure_node (cwd s) body).
   Proof.
-    induction 1 as [|n l Hn _ IH]; intros s Hs; simpl; [reflexivity|].
-    rewrite (Hn s Hs). destruct (pure_node (cwd s) n); [|reflexivity].
-    rewrite (IH s Hs). reflexivity.
+    induction 1 as [|n l Hn _ IH]; intros s Hs Hg; simpl; [reflexivity|].
+    simpl in Hg. apply andb_true_iff in Hg. destruct Hg as [Hg1 Hg2].
+    rewrite (Hn s Hs Hg1). destruct (pure_node (cwd s) n); [|reflexivity|reflexivity].
+    rewrite (IH s Hs Hg2). reflexivity.
   Qed.
 
   Lemma each_ok a body : Forall node_ok body -> is_abs a = true ->
-    forall s, is_abs (cwd s) = true ->
-      each_in_bracket (run_node fxs files) a body s
-      = (s, spec_list pure_node (normpath (dirname a)) body).
+    dir_ok (chdir_dir fxs links a) = true ->
+    forallb (EG (chdir_dir fxs links a)) body = true ->
+    forall s,
+      each_in_bracket fxs links dir_ok RUN a body s
+      = (s, spec_list pure_node (chdir_dir fxs links a) body).
   Proof.
-    intros HF Ha. induction HF as [|n l Hn _ IH]; intros s Hs; simpl; [reflexivity|].
-    rewrite (bracket_some _ (run_node fxs files n) (fun c => pure_node c n) a s Hn Ha).
-    destruct (pure_node (normpath (dirname a)) n); [|reflexivity].
-    rewrite (IH s Hs). reflexivity.
+    intros HF Ha Hd. induction HF as [|n l Hn _ IH]; intros Hg s; simpl; [reflexivity|].
+    simpl in Hg. apply andb_true_iff in Hg. destruct Hg as [Hg1 Hg2].
+    rewrite (bracket_some fxs links dir_ok _ (RUN n) (pure_node (chdir_dir fxs links a) n) a s Ha Hd).
+    - destruct (pure_node (chdir_dir fxs links a) n); [|reflexivity|reflexivity].
+      rewrite (IH Hg2 s). reflexivity.
+    - intros s' E. rewrite <- E. apply Hn; [rewrite E; apply kresolve_abs|rewrite E; exact Hg1].
   Qed.
 
   Lemma run_node_pure : forall n, node_ok n.
   Proof.
     apply node_ind2; unfold node_ok.
-    - (* NPath *) intros id g s Hs. simpl run_node.
-      rewrite (bracket_none _ _ (fun c => if present files c g then Ok [(id, g, c, join c g)] else Err) s);
-        [reflexivity| |exact Hs].
-      intros s' _. rewrite open_fr_spec. destruct (present files (cwd s') g); reflexivity.
-    - (* NLoad *) intros g body HF s Hs. simpl run_node. rewrite open_fr_spec. simpl pure_node.
-      destruct (present files (cwd s) g); [|reflexivity].
+    - (* NPath *) intros id g s Hs _. simpl run_node.
+      apply bracket_none. rewrite open_fr_spec. simpl pure_node. destruct (present files links (cwd s) g); reflexivity.
+    - (* NLoad *) intros g body HF s Hs Hg. simpl run_node. rewrite open_fr_spec. simpl pure_node.
+      simpl in Hg. destruct (present files links (cwd s) g); [|reflexivity]. simpl in Hg.
+      apply andb_true_iff in Hg. destruct Hg as [Hd Hg]. rewrite <- mdir_cdir in Hd, Hg.
       assert (Ha : is_abs (join (cwd s) g) = true) by (apply join_abs; exact Hs).
-      rewrite (bracket_some _ (fun s' => (s', Ok tt)) (fun _ => Ok tt) _ s); [|reflexivity|exact Ha].
-      rewrite (bracket_some _ _ (fun c => spec_list pure_node c body) _ s);
-        [reflexivity| |exact Ha].
-      intros s' Hs'. apply seq_ok; assumption.
-    - (* NListFile *) intros y g body HF s Hs. simpl run_node. rewrite open_fr_spec. simpl pure_node.
-      destruct (present files (cwd s) g) eqn:Hp; [|reflexivity].
+      rewrite (bracket_some fxs links dir_ok _ (fun s' => (s', Ok tt)) (Ok tt) _ s Ha Hd); [|reflexivity].
+      unfold then_.
+      apply (bracket_some fxs links dir_ok _ _ _ _ s Ha Hd).
+      intros s' E. change (chdir_dir fxs links (join (cwd s) g)) with (mdir (cwd s) g) in E.
+      rewrite <- E. apply seq_ok; [exact HF|rewrite E; apply kresolve_abs|rewrite E; exact Hg].
+    - (* NListFile *) intros y g body HF s Hs Hg. simpl run_node. rewrite open_fr_spec. simpl pure_node.
+      simpl in Hg. destruct (present files links (cwd s) g) eqn:Hp; [|reflexivity]. simpl in Hg.
+      apply andb_true_iff in Hg. destruct Hg as [Hd Hg]. rewrite <- mdir_cdir in Hd, Hg.
       assert (Ha : is_abs (join (cwd s) g) = true) by (apply join_abs; exact Hs).
+      (* the fallback, started in a state whose cwd is c, provided the list file's directory as seen from c is fine *)
       assert (Hfb : forall s', is_abs (cwd s') = true ->
-                (match open_fr files s' g with
-                 | Ok (_, a2) => each_in_bracket (run_node fxs files) a2 body s'
+                (present files links (cwd s') g = true ->
+                   dir_ok (mdir (cwd s') g) = true /\ forallb (EG (mdir (cwd s') g)) body = true) ->
+                (match open_fr files links s' g with
+                 | Ok (_, a2) => each_in_bracket fxs links dir_ok RUN a2 body s'
                  | Err => (s', Err)
-                 end) = (s', if present files (cwd s') g
-                             then spec_list pure_node (dir_of (cwd s') g) body else Err)).
-      { intros s' Hs'. rewrite open_fr_spec. destruct (present files (cwd s') g); [|reflexivity].
-        apply each_ok; [exact HF| |exact Hs']. apply join_abs; exact Hs'. }
-      destruct y; cbn [andb].
-      + rewrite (bracket_some _ (fun s' => (s', Ok tt)) (fun _ => Ok tt) _ s); [|reflexivity|exact Ha].
-        rewrite (bracket_some _ (fun s' => (s', @Err unit)) (fun _ => Err) _ s); [|reflexivity|exact Ha].
-        destruct (fx_lf fxs); cbn [negb].
-        * rewrite (Hfb s Hs), Hp. reflexivity.
-        * rewrite (bracket_some _ _ (fun c => if present files c g
-                                             then spec_list pure_node (dir_of c g) body else Err) _ s);
-            [reflexivity|exact Hfb|exact Ha].
-      + rewrite (bracket_some _ (fun s' => (s', @Err unit)) (fun _ => Err) _ s); [|reflexivity|exact Ha].
-        rewrite (bracket_none _ _ (fun c => if present files c g
-                                           then spec_list pure_node (dir_of c g) body else Err) s);
-          [rewrite Hp; reflexivity|exact Hfb|exact Hs].
-    - (* NInline *) intros body HF s Hs. simpl run_node. simpl pure_node.
-      rewrite (bracket_none _ _ (fun c => spec_list pure_node c body) s);
-        [reflexivity| |exact Hs].
-      intros s' Hs'. apply seq_ok; assumption.
-    - (* NBad *) intros s _. reflexivity.
+                 | ErrOs => (s', ErrOs)
+                 end) = (s', if present files links (cwd s') g
+                             then spec_list pure_node (mdir (cwd s') g) body else Err)).
+      { intros s' Hs' Hok. rewrite open_fr_spec. destruct (present files links (cwd s') g); [|reflexivity].
+        destruct (Hok eq_refl) as [H1 H2].
+        apply each_ok; [exact HF|apply join_abs; exact Hs'|exact H1|exact H2]. }
+      destruct y; cbn [andb] in *.
+      + rewrite (bracket_some fxs links dir_ok _ (fun s' => (s', Ok tt)) (Ok tt) _ s Ha Hd); [|reflexivity].
+        unfold then_ at 1.
+        rewrite (bracket_some fxs links dir_ok _ (fun s' => (s', @Err unit)) Err _ s Ha Hd); [|reflexivity].
+        unfold then_.
+        destruct (fx_lf fxs); cbn [negb] in *.
+        * rewrite (Hfb s Hs); [rewrite Hp; reflexivity|]. intros _. split; [exact Hd|exact Hg].
+        * apply (bracket_some fxs links dir_ok _ _ _ _ s Ha Hd).
+          intros s' E. change (chdir_dir fxs links (join (cwd s) g)) with (mdir (cwd s) g) in E.
+          rewrite (Hfb s'); [rewrite E; reflexivity|rewrite E; apply kresolve_abs|].
+          rewrite E. intros Hp2. rewrite Hp2 in Hg. simpl in Hg.
+          apply andb_true_iff in Hg. rewrite <- mdir_cdir in Hg. exact Hg.
+      + rewrite (bracket_some fxs links dir_ok _ (fun s' => (s', @Err unit)) Err _ s Ha Hd); [|reflexivity].
+        unfold then_.
+        apply bracket_none. rewrite (Hfb s Hs); [rewrite Hp; reflexivity|].
+        intros _. split; [exact Hd|exact Hg].
+    - (* NInline *) intros body HF s Hs Hg. simpl run_node. simpl pure_node.
+      apply bracket_none. apply seq_ok; assumption.
+    - (* NBad *) intros s _ _. reflexivity.
   Qed.
 
   Lemma run_top_pure : forall s top body, is_abs (cwd s) = true ->
-    run_top fxs files s top body = (s, pure_top (cwd s) top body).
+    tree_enter_guard files links (fx_lf fxs) (fx_rp fxs) dir_ok (cwd s) top body = true ->
+    run_top fxs files links dir_ok s top body = (s, pure_top (cwd s) top body).
   Proof.
-    intros s top body Hs. unfold run_top, pure_top. rewrite open_fr_spec.
-    destruct (present files (cwd s) top); [|reflexivity].
-    rewrite (bracket_some _ _ (fun c => spec_list pure_node c body) _ s);
-      [reflexivity| |apply join_abs; exact Hs].
-    intros s' Hs'. apply seq_ok; [|exact Hs'].
+    intros s top body Hs Hg. unfold run_top, pure_top. rewrite open_fr_spec.
+    unfold tree_enter_guard in Hg.
+    destruct (present files links (cwd s) top); [|reflexivity]. simpl in Hg.
+    apply andb_true_iff in Hg. destruct Hg as [Hd Hg]. rewrite <- mdir_cdir in Hd, Hg.
+    apply (bracket_some fxs links dir_ok _ _ _ _ s (join_abs _ _ Hs) Hd).
+    intros s' E. change (chdir_dir fxs links (join (cwd s) top)) with (mdir (cwd s) top) in E.
+    rewrite <- E. apply seq_ok; [|rewrite E; apply kresolve_abs|rewrite E; exact Hg].
     apply Forall_forall. intros n _. apply run_node_pure.
   Qed.
 
@@ -215,72 +242,140 @@ Section Main.
     apply andb_true_iff in H. destruct H as [H1 H2]. constructor; auto.
   Qed.
 
-  Lemma pure_is_spec : forall n base,
-    lf_guard files (fx_lf fxs) base n = true -> pure_node base n = spec_node files base n.
+  Lemma forallb_impl (g1 g2 : node -> bool) (l : list node) :
+    Forall (fun n => g1 n = true -> g2 n = true) l -> forallb g1 l = true -> forallb g2 l = true.
   Proof.
-    apply (node_ind2 (fun n => forall base, lf_guard files (fx_lf fxs) base n = true ->
-                                 pure_node base n = spec_node files base n)).
+    induction 1 as [|n l Hn _ IH]; simpl; intro H; [reflexivity|].
+    apply andb_true_iff in H. destruct H as [H1 H2]. rewrite (Hn H1), (IH H2). reflexivity.
+  Qed.
+
+  Notation G := (lf_guard files links (fx_lf fxs) (fx_rp fxs) dir_ok).
+
+  (* inside the guard the directory the code enters is the directory the file is in, and it can be entered *)
+  Lemma rp_ok_mdir base g : rp_ok links (fx_rp fxs) dir_ok base g = true ->
+    mdir base g = dir_of links base g /\ dir_ok (mdir base g) = true.
+  Proof.
+    unfold rp_ok. intro H. apply andb_true_iff in H. destruct H as [H1 H2].
+    rewrite mdir_cdir. apply str_eqb_spec in H1. rewrite H1. split; [reflexivity|exact H2].
+  Qed.
+
+  (* the guard of the resolution theorem implies the guard of the restoration theorem *)
+  Lemma guard_enter : forall n base, G base n = true -> EG base n = true.
+  Proof.
+    apply (node_ind2 (fun n => forall base, G base n = true -> EG base n = true)).
     - reflexivity.
-    - intros g body HF base H. simpl in *. destruct (present files base g); [|reflexivity].
-      simpl in H. apply spec_list_ext.
-      apply (guard_list _ (lf_guard files (fx_lf fxs) (dir_of base g))); [|exact H].
+    - intros g body HF base H. simpl in *. destruct (present files links base g); [|reflexivity].
+      simpl in *. apply andb_true_iff in H. destruct H as [Hr H].
+      destruct (rp_ok_mdir base g Hr) as [E D]. rewrite mdir_cdir in E, D. rewrite E in *. rewrite D. simpl.
+      revert H. apply forallb_impl. rewrite Forall_forall in *. intros n Hn. apply HF. exact Hn.
+    - intros y g body HF base H. simpl in *. destruct (present files links base g); [|reflexivity].
+      simpl in *. apply andb_true_iff in H. destruct H as [H H3].
+      apply andb_true_iff in H. destruct H as [Hr H].
+      destruct (rp_ok_mdir base g Hr) as [E D]. rewrite mdir_cdir in E, D. rewrite E in *. rewrite D. simpl.
+      assert (X : forallb (EG (dir_of links base g)) body = true).
+      { revert H3. apply forallb_impl. rewrite Forall_forall in *. intros n Hn. apply HF. exact Hn. }
+      destruct y; cbn [andb]; [|exact X].
+      destruct (fx_lf fxs); cbn [negb]; [exact X|].
+      simpl in H. apply andb_true_iff in H. destruct H as [H1 H2].
+      rewrite H1. simpl. apply str_eqb_spec in H2. rewrite H2, D. exact X.
+    - intros body HF base H. simpl in *.
+      revert H. apply forallb_impl. rewrite Forall_forall in *. intros n Hn. apply HF. exact Hn.
+    - reflexivity.
+  Qed.
+
+  Lemma pure_is_spec : forall n base,
+    G base n = true -> pure_node base n = spec_node files links base n.
+  Proof.
+    apply (node_ind2 (fun n => forall base, G base n = true ->
+                                 pure_node base n = spec_node files links base n)).
+    - reflexivity.
+    - intros g body HF base H. simpl in *. destruct (present files links base g); [|reflexivity].
+      simpl in H. apply andb_true_iff in H. destruct H as [Hr H].
+      destruct (rp_ok_mdir base g Hr) as [E _]. rewrite E. apply spec_list_ext.
+      apply (guard_list _ (G (dir_of links base g))); [|exact H].
       rewrite Forall_forall in *. intros n Hn. apply HF. exact Hn.
-    - intros y g body HF base H. simpl in *. destruct (present files base g); [|reflexivity].
+    - intros y g body HF base H. simpl in *. destruct (present files links base g); [|reflexivity].
       simpl in H. apply andb_true_iff in H. destruct H as [H H3].
-      assert (X : spec_list pure_node (dir_of base g) body = spec_list (spec_node files) (dir_of base g) body).
+      apply andb_true_iff in H. destruct H as [Hr H].
+      destruct (rp_ok_mdir base g Hr) as [E _]. rewrite E.
+      assert (X : spec_list pure_node (dir_of links base g) body
+                  = spec_list (spec_node files links) (dir_of links base g) body).
       { apply spec_list_ext.
-        apply (guard_list _ (lf_guard files (fx_lf fxs) (dir_of base g))); [|exact H3].
+        apply (guard_list _ (G (dir_of links base g))); [|exact H3].
         rewrite Forall_forall in *. intros n Hn. apply HF. exact Hn. }
       destruct y; cbn [andb]; [|exact X].
       destruct (fx_lf fxs); cbn [negb]; [exact X|].
       simpl in H. apply andb_true_iff in H. destruct H as [H1 H2].
-      rewrite H1. apply str_eqb_spec in H2. rewrite H2. exact X.
+      rewrite H1. rewrite mdir_cdir. apply str_eqb_spec in H2. rewrite H2. exact X.
     - intros body HF base H. simpl in *. apply spec_list_ext.
-      apply (guard_list _ (lf_guard files (fx_lf fxs) base)); [|exact H].
+      apply (guard_list _ (G base)); [|exact H].
       rewrite Forall_forall in *. intros n Hn. apply HF. exact Hn.
     - reflexivity.
   Qed.
 
-  Lemma run_top_ok : forall s top body, is_abs (cwd s) = true ->
-    tree_guard files (fx_lf fxs) (cwd s) top body = true ->
-    run_top fxs files s top body = (s, spec_top files (cwd s) top body).
+  Lemma tree_guard_enter cwd0 top body :
+    tree_guard files links (fx_lf fxs) (fx_rp fxs) dir_ok cwd0 top body = true ->
+    tree_enter_guard files links (fx_lf fxs) (fx_rp fxs) dir_ok cwd0 top body = true.
   Proof.
-    intros s top body Hs Hg. rewrite (run_top_pure s top body Hs). f_equal.
+    unfold tree_guard, tree_enter_guard. destruct (present files links cwd0 top); [|reflexivity]. simpl.
+    intro H. apply andb_true_iff in H. destruct H as [Hr H].
+    destruct (rp_ok_mdir cwd0 top Hr) as [E D]. rewrite mdir_cdir in E, D. rewrite E in *. rewrite D. simpl.
+    revert H. apply forallb_impl. apply Forall_forall. intros n _. apply guard_enter.
+  Qed.
+
+  Lemma run_top_ok : forall s top body, is_abs (cwd s) = true ->
+    tree_guard files links (fx_lf fxs) (fx_rp fxs) dir_ok (cwd s) top body = true ->
+    run_top fxs files links dir_ok s top body = (s, spec_top files links (cwd s) top body).
+  Proof.
+    intros s top body Hs Hg. rewrite (run_top_pure s top body Hs (tree_guard_enter _ _ _ Hg)). f_equal.
     unfold pure_top, spec_top. unfold tree_guard in Hg.
-    destruct (present files (cwd s) top); [|reflexivity]. simpl in Hg.
+    destruct (present files links (cwd s) top); [|reflexivity]. simpl in Hg.
+    apply andb_true_iff in Hg. destruct Hg as [Hr Hg].
+    destruct (rp_ok_mdir _ _ Hr) as [E _]. rewrite E.
     apply spec_list_ext.
-    apply (guard_list _ (lf_guard files (fx_lf fxs) (dir_of (cwd s) top))); [|exact Hg].
+    apply (guard_list _ (G (dir_of links (cwd s) top))); [|exact Hg].
     apply Forall_forall. intros n _. apply pure_is_spec.
   Qed.
 
   Lemma run_node_ok : forall n s, is_abs (cwd s) = true ->
-    lf_guard files (fx_lf fxs) (cwd s) n = true ->
-    run_node fxs files n s = (s, spec_node files (cwd s) n).
+    G (cwd s) n = true ->
+    RUN n s = (s, spec_node files links (cwd s) n).
   Proof.
-    intros n s Hs Hg. rewrite (run_node_pure n s Hs). f_equal. apply pure_is_spec. exact Hg.
+    intros n s Hs Hg. rewrite (run_node_pure n s Hs (guard_enter _ _ Hg)). f_equal. apply pure_is_spec. exact Hg.
   Qed.
 End Main.
 
-(* with the list-file repair every tree is inside the guard *)
-Lemma lf_guard_fixed files : forall n base, lf_guard files true base n = true.
+(* with both repairs of this half (list-file fallback, realpath before chdir) and a file system in which the
+   directories can be entered, every tree is inside the guard *)
+Lemma rp_ok_fixed links dir_ok base g : (forall d, dir_ok d = true) -> rp_ok links true dir_ok base g = true.
+Proof. intro D. unfold rp_ok, cdir, dir_of. rewrite str_eqb_refl, D. reflexivity. Qed.
+
+Lemma lf_guard_fixed files links dir_ok : (forall d, dir_ok d = true) ->
+  forall n base, lf_guard files links true true dir_ok base n = true.
 Proof.
-  apply (node_ind2 (fun n => forall base, lf_guard files true base n = true)); simpl; intros; try reflexivity.
-  - apply orb_true_iff. right. apply forallb_forall. intros n Hn. rewrite Forall_forall in H. apply H. exact Hn.
-  - apply orb_true_iff. right. apply forallb_forall. intros n Hn. rewrite Forall_forall in H. apply H. exact Hn.
+  intro D.
+  apply (node_ind2 (fun n => forall base, lf_guard files links true true dir_ok base n = true)); simpl; intros;
+    try reflexivity.
+  - apply orb_true_iff. right. rewrite (rp_ok_fixed _ _ _ _ D). simpl.
+    apply forallb_forall. intros n Hn. rewrite Forall_forall in H. apply H. exact Hn.
+  - apply orb_true_iff. right. rewrite (rp_ok_fixed _ _ _ _ D). simpl.
+    apply forallb_forall. intros n Hn. rewrite Forall_forall in H. apply H. exact Hn.
   - apply forallb_forall. intros n Hn. rewrite Forall_forall in H. apply H. exact Hn.
 Qed.
 
-Lemma tree_guard_fixed files cwd0 top body : tree_guard files true cwd0 top body = true.
+Lemma tree_guard_fixed files links dir_ok cwd0 top body : (forall d, dir_ok d = true) ->
+  tree_guard files links true true dir_ok cwd0 top body = true.
 Proof.
-  unfold tree_guard. apply orb_true_iff. right. apply forallb_forall. intros n _. apply lf_guard_fixed.
+  intro D. unfold tree_guard. apply orb_true_iff. right. rewrite (rp_ok_fixed _ _ _ _ D). simpl.
+  apply forallb_forall. intros n _. apply lf_guard_fixed. exact D.
 Qed.
 
-Lemma run_top_repaired : forall fxs files s top body,
-  fx_lf fxs = true -> is_abs (cwd s) = true ->
-  snd (run_top fxs files s top body) = spec_top files (cwd s) top body.
+Lemma run_top_repaired : forall fxs files links dir_ok s top body,
+  fx_lf fxs = true -> fx_rp fxs = true -> (forall d, dir_ok d = true) -> is_abs (cwd s) = true ->
+  run_top fxs files links dir_ok s top body = (s, spec_top files links (cwd s) top body).
 Proof.
-  intros fxs files s top body L H.
-  rewrite (run_top_ok fxs files s top body H); [reflexivity|]. rewrite L. apply tree_guard_fixed.
+  intros fxs files links dir_ok s top body L R D H.
+  apply run_top_ok; [exact H|]. rewrite L, R. apply tree_guard_fixed. exact D.
 Qed.
 
 (* ---- what breaks without the `finally`: the bracket written as plain sequencing ------------------ *)
@@ -293,6 +388,6 @@ Definition bracket_no_finally {A} (path : option str) (body : st -> st * res A) 
       let '(s3, r) := body s2 in
       match r with
       | Ok _ => (s, r)
-      | Err => (s3, r)       (* the exception skips the restoring statements *)
+      | Err | ErrOs => (s3, r)       (* the exception skips the restoring statements *)
       end
   end.
